@@ -171,6 +171,61 @@ TEMPLATES["escape"] = dict(
 )
 
 
+# SAME-NAMED CLASSES in different scopes of one file (one per function, per branch, per nesting level, next to a module-level one): each declaration is a class
+# of its own - objects made in one scope run that scope's constructor and methods, whatever was declared or executed before
+def _cls(tag, shape, ind):
+    p = "\t" * ind
+    if shape == "method-only":
+        return [p + "class K {", p + "\tfn v(self) -> int {", p + f"\t\treturn {tag}", p + "\t}", p + "}"], "K()", f"{tag}"
+    if shape == "field":
+        return [p + "class K {", p + "\tn: int", p + "\tconstructor(self, n: int) {", p + f"\t\tself.n = n + {tag}", p + "\t}", p + "\tfn v(self) -> int {",
+                p + f"\t\treturn self.n * 2", p + "\t}", p + "}"], "K(1)", f"{(1 + tag) * 2}"
+    if shape == "self":
+        return [p + "class K {", p + "\tn: int", p + "\tconstructor(self) {", p + f"\t\tself.n = {tag}", p + "\t}", p + "\tfn me(self) -> Self {", p + "\t\tself.n += 1",
+                p + "\t\treturn self", p + "\t}", p + "\tfn twin(self) -> Self {", p + "\t\treturn Self()", p + "\t}", p + "\tfn v(self) -> int {", p + "\t\treturn self.n", p + "\t}", p + "}"], \
+            "K().me().twin().me()", f"{tag + 1}"
+    raise ValueError(shape)
+
+
+SAME_SCOPES = ["fn", "fn2", "if-arm", "else-arm", "nested-fn", "module", "loop"]
+SAME_SHAPES = ["method-only", "field", "self"]
+
+
+def same_name_program(s1, s2, shape, order):
+    """two declarations of `class K` in scopes s1 != s2; order = sequence over (1, 2) of which scope is exercised -> (source, expected lines)"""
+    lines, runs = [], {}
+    for i, sc in ((1, s1), (2, s2)):
+        tag = 100 * i
+        if sc == "module":
+            c, mk, exp = _cls(tag, shape, 0)
+            lines += c + [f"r{i} = fn() -> int {{", f"\tko = {mk}", "\treturn ko.v()", "}"]
+        elif sc in ("fn", "fn2"):
+            c, mk, exp = _cls(tag, shape, 1)
+            lines += [f"r{i} = fn() -> int {{"] + c + [f"\tko = {mk}", "\treturn ko.v()", "}"]
+        elif sc in ("if-arm", "else-arm"):
+            c, mk, exp = _cls(tag, shape, 2)
+            cond = "true" if sc == "if-arm" else "false"
+            arm = c + [f"\t\tko = {mk}", "\t\treturn ko.v()"]
+            other = ["\t\treturn 0 - 1"]
+            lines += [f"r{i} = fn() -> int {{", f"\tif {cond} {{"] + (arm if sc == "if-arm" else other) + ["\t} else {"] + (other if sc == "if-arm" else arm) + ["\t}", "}"]
+        elif sc == "nested-fn":
+            c, mk, exp = _cls(tag, shape, 2)
+            lines += [f"r{i} = fn() -> int {{", "\tinner = fn() -> int {"] + c + [f"\t\tko = {mk}", "\t\treturn ko.v()", "\t}", "\treturn inner()", "}"]
+        elif sc == "loop":
+            c, mk, exp = _cls(tag, shape, 2)
+            lines += [f"r{i} = fn() -> int {{", "\tacc = 0", "\tfrom 0 to 2 {"] + c + [f"\t\tko = {mk}", "\t\tacc = ko.v()", "\t}", "\treturn acc", "}"]
+        runs[i] = exp
+    out = []
+    for i in order:
+        lines.append(f"print r{i}()")
+        out.append(runs[i])
+    lines.append('print "end"')
+    return "\n".join(lines) + "\n", out + ["end"]
+
+
+SAME_ORDERS = [(1, 2), (2, 1), (1,), (2,), (1, 2, 1), (2, 2, 1)]
+
+
 class ObjectModel(ClosureModel):
     name = "objects"
     T = TEMPLATES
@@ -194,14 +249,46 @@ class C08(EHistCheck):
             "variables and operations inside one function body instead of at module level.")
     assumptions = ["objects are never printed (addresses); `==` on objects is rejected by the compiler and is not in the alphabet"]
 
+    def layers(self, tier):
+        return [("same-named-classes-in-different-scopes-of-one-file", _same_cases())] + self.bfs(tier)
+
+    def describe(self, case):
+        if case[0] == "same":
+            return {"class K declared in": [case[1], case[2]], "shape": case[3], "scopes exercised": list(SAME_ORDERS[case[4]])}
+        return EHistCheck.describe(self, case)
+
+    def run_case(self, case):
+        if case[0] != "same":
+            return EHistCheck.run_case(self, case)
+        from ..core import driver
+        src, exp = same_name_program(case[1], case[2], case[3], SAME_ORDERS[case[4]])
+        res = driver.run_ms(src)
+        if driver.compile_rejected(res):
+            return {"outcome": "same-rejected", "nontrivial": False, "tags": ["same-rejected", f"same-rejected-{case[1]}-{case[2]}"], "show": res.out[-300:]}
+        viol = []
+        if res.exit != 0 or res.lines() != exp:
+            viol.append({"sig": {"kind": "same-named-classes", "scopes": f"{case[1]},{case[2]}", "shape": case[3]},
+                         "what": f"class K declared in {case[1]} and in {case[2]} ({case[3]}), exercised in order {SAME_ORDERS[case[4]]}: expected {exp}, got exit {res.exit} and {res.lines()} {res.err[-200:]}",
+                         "detail": {"files": {"x.ms": src}, "res": res.brief(), "expected_lines": exp}})
+        return {"outcome": "same-ok" + ("-DIFF" if viol else ""), "viol": viol, "nontrivial": True, "tags": ["same", f"same-{case[3]}"]}
+
+
+def _same_cases():
+    return [("same", a, b, sh, o) for a in SAME_SCOPES for b in SAME_SCOPES if a != b and not (a == "module" and b == "module")
+            for sh in SAME_SHAPES for o in range(len(SAME_ORDERS))]
+
 
 def register_corpus(register):
     names = list(TEMPLATES)
+    same = [c for c in _same_cases() if c[4] == 4][::3]
 
     def count(tier):
-        return len(names)
+        return len(names) + len(same)
 
     def get(i):
+        if i >= len(names):
+            _, a, b, sh, o = same[i - len(names)]
+            return {"x.ms": same_name_program(a, b, sh, SAME_ORDERS[o])[0]}
         t = TEMPLATES[names[i]]
         ops = []
         for k, o in enumerate(t["ops"]):
